@@ -5,3 +5,182 @@
 pub(crate) fn stat_res_addr(f: &super::Stat<'_>) -> usize {
     crate::io_uring::op::verif_opsup::resources_addr(&f.state)
 }
+
+// ===========================================================================
+// C13: OpenOptions -> open(2) flags and mode.
+// ===========================================================================
+
+use crate::io_uring::op::verif_opsup as ops;
+use crate::io_uring::verif_kernel as k;
+
+/// Reference semantics of the builder (std::fs::OpenOptions / open(2)).
+#[derive(Copy, Clone)]
+struct OpenModel {
+    access: i32,
+    bits: i32,
+    mode: u32,
+    direct_kind: bool,
+}
+
+fn apply(o: super::OpenOptions, m: &mut OpenModel, which: u8, arg: u32) -> super::OpenOptions {
+    match which {
+        0 => {
+            if m.access == libc::O_WRONLY {
+                m.access = libc::O_RDWR;
+            }
+            o.read()
+        }
+        1 => {
+            if m.access == libc::O_RDONLY {
+                m.access = libc::O_RDWR;
+            }
+            o.write()
+        }
+        2 => {
+            m.access = libc::O_WRONLY;
+            o.write_only()
+        }
+        3 => {
+            m.bits |= libc::O_APPEND;
+            o.append()
+        }
+        4 => {
+            m.bits |= libc::O_TRUNC;
+            o.truncate()
+        }
+        5 => {
+            m.bits |= libc::O_CREAT;
+            o.create()
+        }
+        6 => {
+            m.bits |= libc::O_CREAT | libc::O_EXCL;
+            o.create_new()
+        }
+        7 => {
+            m.bits |= libc::O_DSYNC;
+            o.data_sync()
+        }
+        8 => {
+            m.bits |= libc::O_SYNC;
+            o.sync()
+        }
+        9 => {
+            m.bits |= libc::O_DIRECT;
+            o.direct()
+        }
+        10 => {
+            m.mode = arg;
+            o.mode(arg)
+        }
+        _ => {
+            m.direct_kind = arg & 1 != 0;
+            o.kind(if m.direct_kind { crate::fd::Kind::Direct } else { crate::fd::Kind::File })
+        }
+    }
+}
+
+//@ prop: C13
+//@ tier: quick
+//@ what: OpenOptions: after ANY sequence of three builder calls (read, write, write_only, append, truncate, create, create_new, data_sync, sync, direct, mode(m), kind(k)) followed by open or open_temp_file, the OPENAT arguments are exactly what open(2) would be given: access mode per the read/write rules, every requested flag bit and no other, O_TMPFILE for temp files, O_CLOEXEC iff a regular descriptor is requested, and -- whenever the kernel looks at it (O_CREAT or O_TMPFILE) -- the mode the caller set (default 0o666)
+//@ bound: three builder calls (symbolic choice and arguments, any u32 mode) + open / open_temp_file
+//@ encodes: fs::OpenOptions::{new,read,write,write_only,append,truncate,create,create_new,data_sync,sync,direct,mode,kind,open,open_temp_file}
+//@ stubs: crate::lock -> try_lock model; <core::io::CustomOwner as Drop>::drop -> no-op
+#[kani::proof]
+#[kani::unwind(3)]
+#[kani::stub(crate::lock, crate::verif_stubs::lock_model)]
+#[kani::stub(<core::io::CustomOwner as core::ops::Drop>::drop, crate::verif_stubs::custom_owner_drop_noop)]
+fn c13_open_options() {
+    k::install(k::base_table());
+    k::sq_set(0, 0);
+    let sq = crate::SubmissionQueue(crate::io_uring::sq::verif_c04::submissions_in_place(2, false, false));
+    let mut m = OpenModel { access: libc::O_RDONLY, bits: 0, mode: 0o666, direct_kind: false };
+    let mut o = super::OpenOptions::new();
+    let (w1, a1): (u8, u32) = (kani::any(), kani::any());
+    let (w2, a2): (u8, u32) = (kani::any(), kani::any());
+    let (w3, a3): (u8, u32) = (kani::any(), kani::any());
+    kani::assume(w1 < 12 && w2 < 12 && w3 < 12);
+    o = apply(o, &mut m, w1, a1);
+    o = apply(o, &mut m, w2, a2);
+    o = apply(o, &mut m, w3, a3);
+    let temp: bool = kani::any();
+    let mut f = if temp { o.open_temp_file(sq.clone(), std::path::PathBuf::from("d")) } else { o.open(sq.clone(), std::path::PathBuf::from("p")) };
+    let (res, args) = ops::resources_args(&mut f.state);
+    let (flags, mode) = *args;
+    let mut want = m.access | m.bits;
+    if temp {
+        want |= libc::O_TMPFILE;
+    }
+    if !m.direct_kind {
+        want |= libc::O_CLOEXEC;
+    }
+    assert!(flags == want, "open flags are exactly the requested ones");
+    assert!(matches!(res.1, crate::fd::Kind::Direct) == m.direct_kind, "requested descriptor kind");
+    if want & libc::O_CREAT != 0 || want & libc::O_TMPFILE == libc::O_TMPFILE {
+        assert!(mode as u32 == m.mode, "creation mode reaches the kernel whenever it is used (O_CREAT or O_TMPFILE)");
+    }
+    kani::cover!(temp && w1 == 10 && a1 == 0o600);
+    kani::cover!(!temp && m.access == libc::O_RDWR && m.bits & libc::O_CREAT != 0);
+    kani::cover!(m.direct_kind);
+    std::mem::forget(f);
+    std::mem::forget(sq);
+}
+
+//@ prop: C13
+//@ tier: quick
+//@ what: the public path functions build the operation their name says: open_file = read-only open of that path (O_RDONLY|O_CLOEXEC, regular descriptor); create_dir / remove_file / remove_dir carry that path, remove_file asks for a file removal and remove_dir for AT_REMOVEDIR; rename keeps (from, to) in that order (the submission encoding of these arguments is c13_fs_path_ops)
+//@ bound: one- and two-byte path names (symbolic bytes, no NUL)
+//@ encodes: fs::{open_file,create_dir,rename,remove_file,remove_dir}; fs::path_to_cstring
+//@ stubs: crate::lock -> try_lock model; <core::io::CustomOwner as Drop>::drop -> no-op
+#[kani::proof]
+#[kani::unwind(5)]
+#[kani::stub(crate::lock, crate::verif_stubs::lock_model)]
+#[kani::stub(<core::io::CustomOwner as core::ops::Drop>::drop, crate::verif_stubs::custom_owner_drop_noop)]
+fn c13_fs_public_functions() {
+    use std::os::unix::ffi::OsStringExt;
+    k::install(k::base_table());
+    k::sq_set(0, 0);
+    let sq = crate::SubmissionQueue(crate::io_uring::sq::verif_c04::submissions_in_place(2, false, false));
+    let a: u8 = kani::any();
+    let b: u8 = kani::any();
+    kani::assume(a != 0 && b != 0 && a != b);
+    let pa = || std::path::PathBuf::from(std::ffi::OsString::from_vec(vec![a]));
+    let pb = || std::path::PathBuf::from(std::ffi::OsString::from_vec(vec![b, a]));
+    let which: u8 = kani::any();
+    kani::assume(which < 5);
+    match which {
+        0 => {
+            let mut f = super::open_file(sq.clone(), pa());
+            let (res, args) = ops::resources_args(&mut f.state);
+            assert!(res.0.as_bytes() == [a] && matches!(res.1, crate::fd::Kind::File));
+            assert!(args.0 == libc::O_RDONLY | libc::O_CLOEXEC, "read-only, close-on-exec");
+            std::mem::forget(f);
+        }
+        1 => {
+            let mut f = super::create_dir(sq.clone(), pb());
+            let (res, _) = ops::resources_args(&mut f.state);
+            assert!(res.as_bytes() == [b, a]);
+            std::mem::forget(f);
+        }
+        2 => {
+            let mut f = super::rename(sq.clone(), pa(), pb());
+            let (res, _) = ops::resources_args(&mut f.state);
+            assert!(res.0.as_bytes() == [a] && res.1.as_bytes() == [b, a], "(from, to) in that order");
+            std::mem::forget(f);
+        }
+        3 => {
+            let mut f = super::remove_file(sq.clone(), pa());
+            let (res, args) = ops::resources_args(&mut f.state);
+            assert!(res.as_bytes() == [a] && matches!(*args, super::RemoveFlag::File), "removes a file");
+            std::mem::forget(f);
+        }
+        _ => {
+            let mut f = super::remove_dir(sq.clone(), pb());
+            let (res, args) = ops::resources_args(&mut f.state);
+            assert!(res.as_bytes() == [b, a] && matches!(*args, super::RemoveFlag::Directory), "removes a directory");
+            std::mem::forget(f);
+        }
+    }
+    kani::cover!(which == 2);
+    kani::cover!(which == 4);
+    std::mem::forget(sq);
+}
